@@ -58,6 +58,26 @@ def dllStep (st : Dll × Bool) (ws : List String) : (Dll × Bool) × String :=
   | ["pre_extend", w] => match w.toNat? with
     | some k => fin (repeatN (fun d => (prepend d).1) k d) "ok"
     | none => (st, "bad-op")
+  -- `extend` / `pre_extend` with an iterable that raises after `k` items: the `k` items are linked (each by one
+  -- `append` / `prepend`, as the code does), then the iterable's exception propagates
+  | ["extendx", w] => match w.toNat? with
+    | some k => fin (repeatN (fun d => (append d).1) k d) "err RuntimeError"
+    | none => (st, "bad-op")
+  | ["pre_extendx", w] => match w.toNat? with
+    | some k => fin (repeatN (fun d => (prepend d).1) k d) "err RuntimeError"
+    | none => (st, "bad-op")
+  -- `extend` with a generator that uses the list itself: before each of its `k` items it pops the front of the list
+  -- (the composition `[popFront, append]^k`; an empty list ends it with the pop's `IndexError`)
+  | ["extendpf", w] => match w.toNat? with
+    | some k =>
+      let rec go : Nat → Dll → Dll × String
+        | 0, d => (d, "ok")
+        | n + 1, d => match popFront d with
+          | .ok (d', _) => go n (append d').1
+          | .error e => (d, s!"err {errName e}")
+      let (d', r) := go k d
+      fin d' r
+    | none => (st, "bad-op")
   | ["quiet"] => ((d, true), "ok")
   | ["verbose"] => ((d, false), "ok")
   | ["dump"] => ((d, st.2), "ok " ++ dllDump d)
